@@ -29,7 +29,7 @@ Rep(e, n) == [i \in 1..n |-> e]
 (* ------------------------------------------------------------------ C01 *)
 ObLit == EObj(<<EFld(N_a, EInt(1)), EFld(N_b, S(<<120>>))>>)
 ObaLit == EObj(<<EFld(N_b, S(<<121>>)), EFld(N_a, EInt(2))>>)
-ObjLeaves == <<Var(N_ob), Var(N_oba), ObLit, ObaLit>>
+ObjLeaves == <<Var(N_ob), Var(N_oba), ObLit, ObaLit, Var(N_obx)>>
 ListObjLits == Prod2(ObjLeaves, ObjLeaves, LAMBDA a, b : EList(<<a, b>>))
 ListObj == <<Var(N_os)>> \o ListObjLits
 ListObjFew == <<Var(N_os), EList(<<Var(N_ob), Var(N_oba)>>), EList(<<ObaLit, ObLit>>), EList(<<Var(N_oba), ObLit>>)>>
@@ -61,7 +61,15 @@ ObjUses(x) == <<EMem(x, N_a), EMem(x, N_b),
 \* depend on the order in which ANY record, at any depth, lists its fields
 NestUses(x) == <<ECall(N_hn, <<EObj(<<EFld(N_o, x)>>)>>), Add(ECall(N_hn, <<EObj(<<EFld(N_o, x)>>)>>), EInt(1)),
                  ECall(N_hn, <<ECall(N_id, <<EObj(<<EFld(N_o, x)>>)>>)>>)>>
-ObjProgs == Concat(Map1(ObjX, ObjUses)) \o ListX \o Concat(Map1(ObjLeaves, NestUses))
+BotE == ESub(EList(<<>>), EInt(0))
+BotProgs == <<EMap(<<EPair(BotE, EInt(1))>>), ECall(N_len, <<EMap(<<EPair(BotE, EInt(1))>>)>>), EMap(<<EPair(EInt(1), BotE)>>),
+              EMap(<<EPair(EInt(1), EInt(2)), EPair(BotE, EInt(1))>>), EList(<<BotE, EInt(1)>>), EList(<<EInt(1), BotE>>),
+              If(Var(N_b), BotE, EInt(1)), If(Var(N_b), EInt(1), BotE), Add(BotE, EInt(1)), ESub(Var(N_xs), BotE),
+              ECall(N_get, <<Var(N_xs), BotE, EInt(0)>>), ECall(N_get, <<Var(N_xs), EInt(0), BotE>>), EObj(<<EFld(N_a, BotE)>>),
+              EMem(EObj(<<EFld(N_a, EMap(<<EPair(BotE, EInt(1))>>))>>), N_a), ECall(N_string, <<BotE>>), ECall(N_id, <<BotE>>),
+              ECall(N_pick, <<BotE, EInt(1)>>), ECall(N_pick, <<EInt(1), BotE>>), ECall(N_eqeq, <<BotE, BotE>>),
+              EMap(<<EPair(If(Var(N_b), BotE, BotE), Var(N_b))>>), ECall(N_union, <<EList(<<BotE>>), Var(N_xs)>>)>>
+ObjProgs == Concat(Map1(ObjX, ObjUses)) \o ListX \o Concat(Map1(ObjLeaves, NestUses)) \o BotProgs
               \o <<ECall(N_hn, <<Var(N_ob)>>), ECall(N_hn, <<EObj(<<EFld(N_o, EInt(1))>>)>>), ECall(N_hn, <<EObj(<<EFld(N_o, Var(N_od))>>)>>)>>
 
 (* ------------------------------------------------------------------ C02 *)
@@ -157,7 +165,7 @@ StrPool == <<S(<<>>), S(<<97>>), S(<<97, 98>>), S(<<233, 26195>>), S(<<97, 34, 9
              Var(N_s), Var(N_u), Var(N_w)>>
 StrOps2 == <<N_plus, N_eqeq, N_ne, N_match>>
 BoolPool == <<EBool(TRUE), EBool(FALSE), Var(N_b), Var(N_c)>>
-TimePool == <<ETime(0), ETime(86400), ETime(90000), Var(N_tm), Var(N_d),
+TimePool == <<ETime(0), ETime(86400), ETime(90000), Var(N_tm), Var(N_d), Var(N_tf), Var(N_tg),
               ECall(N_strtotime, <<S(<<64, 56, 54, 52, 48, 48>>)>>),
               ECall(N_strtotime, <<S(<<50,48,50,49,45,48,51,45,48,52,32,48,53,58,48,54,58,48,55>>)>>)>>
 TimeOps2 == <<N_minus, N_gt, N_ge, N_lt, N_le, N_eqeq, N_ne>>
@@ -171,7 +179,10 @@ MapPool == <<Var(N_m), EMap(<<>>), EMap(<<EPair(S(<<97>>), EInt(1))>>),
              EMap(<<EPair(S(<<98>>), EInt(2)), EPair(S(<<97>>), EInt(1))>>),
              EMap(<<EPair(S(<<97>>), EInt(1)), EPair(S(<<97>>), EInt(2))>>),
              EMap(<<EPair(S(<<97>>), EInt(2)), EPair(S(<<98>>), EInt(2))>>)>>
-NMapPool == <<Var(N_mm), EMap(<<EPair(EInt(1), S(<<120>>)), EPair(ENum(Half(5)), S(<<121>>))>>),
+NMapPool == <<EMap(<<EPair(EInt(9), S(<<110>>)), EPair(EInt(10), S(<<116>>)), EPair(ENum(Fin(11, 1, 0)), S(<<102>>))>>),
+              EMap(<<EPair(ENum(Fin(11, 1, 0)), S(<<102>>)), EPair(EInt(10), S(<<116>>)), EPair(EInt(9), S(<<110>>))>>),
+              EMap(<<EPair(Neg(EInt(20)), S(<<97>>)), EPair(Neg(EInt(1)), S(<<98>>)), EPair(Neg(ENum(Half(3))), S(<<99>>)), EPair(EInt(5), S(<<100>>))>>),
+              Var(N_mm), EMap(<<EPair(EInt(1), S(<<120>>)), EPair(ENum(Half(5)), S(<<121>>))>>),
               EMap(<<EPair(EInt(1), S(<<97>>)), EPair(EInt(1), S(<<98>>))>>),
               EMap(<<EPair(EInt(10), S(<<97>>)), EPair(EInt(9), S(<<98>>)), EPair(EInt(100), S(<<99>>))>>)>>
 MapOps2 == <<N_eqeq, N_ne>>
@@ -197,6 +208,11 @@ SpecialProgs ==
     \o Map1(ZeroMakers, LAMBDA z : ECall(N_eqeq, <<z, EInt(0)>>))
     \o Map1(ZeroMakers, LAMBDA z : ESub(Var(N_xs), z))
     \o Map1(ZeroMakers, LAMBDA z : ECall(N_len, <<EMap(<<EPair(z, EInt(1)), EPair(EInt(0), EInt(2))>>)>>))
+    \* instants with and without fractional seconds, subtracted and compared
+    \o Prod3(<<N_minus, N_gt, N_ge, N_lt, N_le, N_eqeq, N_ne>>, <<Var(N_tf), Var(N_tg), Var(N_tm), Var(N_d)>>, <<Var(N_tf), Var(N_tg), Var(N_tm)>>,
+              LAMBDA f, a, b : ECall(f, <<a, b>>))
+    \o <<If(Gt(ECall(N_minus, <<Var(N_tg), Var(N_tf)>>), ENum(Half(1))), S(<<108>>), S(<<111>>)),
+         ECall(N_eqeq, <<ECall(N_minus, <<Var(N_tf), Var(N_tm)>>), EInt(0)>>)>>
 BuiltinProgs(size) ==
   LET NP == NumPool(size) IN
   SpecialProgs \o
@@ -304,6 +320,17 @@ BcProgs ==
     \o Prod2(BVars, BVars, LAMBDA a, b : If(Not(a), Not(b), Not(Not(b)))) \o Map1(BVars, LAMBDA a : Not(Not(a)))
     \o Map1(BVars, LAMBDA a : Not(Not(Not(a)))) \o Prod2(BVars, BVars, LAMBDA a, b : Not(ECall(N_lif, <<a, b, Not(b)>>)))
     \o Prod2(BVars, BVars, LAMBDA a, b : OrE(Not(a), Not(b))) \o Prod2(BVars, BVars, LAMBDA a, b : AndE(Not(a), Not(Not(b))))
+    \o Prod2(BVars, BVars, LAMBDA a, b : If(OrE(a, Not(b)), EInt(1), EInt(2))) \o Prod2(BVars, BVars, LAMBDA a, b : If(AndE(a, Not(b)), EInt(1), EInt(2)))
+    \o Prod2(BVars, BVars, LAMBDA a, b : OrE(OrE(a, Not(b)), Var(N_c))) \o Prod2(BVars, BVars, LAMBDA a, b : AndE(OrE(a, Not(b)), Var(N_b)))
+    \o Prod2(BVars, BVars, LAMBDA a, b : If(If(a, Var(N_c), Not(b)), EInt(1), EInt(2)))
+    \o Prod2(BVars, BVars, LAMBDA a, b : If(ECall(N_lif, <<a, Var(N_c), Not(b)>>), EInt(1), EInt(2)))
+    \o Prod2(BVars, BVars, LAMBDA a, b : ECall(N_lif, <<a, EInt(1), If(b, EInt(2), EInt(3))>>))
+    \o Prod2(BVars, BVars, LAMBDA a, b : ECall(N_lif, <<a, If(b, EInt(1), EInt(2)), If(AndE(a, b), EInt(3), EInt(4))>>))
+    \o Prod2(BVars, BVars, LAMBDA a, b : ECall(N_second, <<T(1, EInt(1)), If(OrE(a, b), EInt(5), EInt(6))>>))
+    \o Prod2(BVars, BVars, LAMBDA a, b : ECall(N_lif, <<OrE(a, b), AndE(a, b), OrE(Not(a), b)>>))
+    \o Concat(Map1(<<53, 54, 55, 56, 57>>, LAMBDA n :
+          <<Add(FoldLeft(LAMBDA acc, i : Add(acc, EInt(1)), EInt(1), Rep(0, n - 1)), If(Var(N_b), EInt(10), EInt(20))),
+            Add(FoldLeft(LAMBDA acc, i : Add(acc, EInt(1)), EInt(1), Rep(0, n - 1)), If(Not(Var(N_c)), EInt(10), EInt(20)))>>))
     \* an operand whose constant index is a given byte value, then an operator
     \o Concat(Map1(<<1, 2, 54, 55, 56, 57, 255, 256, 257, 310, 311, 312>>, LAMBDA n :
           <<ESub(EList(Rep(EBool(TRUE), n) \o <<Not(Var(N_c))>>), EInt(n)),
@@ -355,7 +382,9 @@ SameBools == <<EBool(TRUE), EBool(FALSE), Var(N_b)>>
 SameTimes == <<ETime(0), ETime(86400), Var(N_tm), ECall(N_strtotime, <<S(<<64, 56, 54, 52, 48, 48>>)>>)>>
 SameLists == <<EList(<<EInt(1), EInt(2)>>), EList(<<EInt(2), EInt(1)>>), EList(<<EInt(1), EInt(2), EInt(1)>>), EList(<<ENum(Half(1))>>),
                Var(N_xs), EList(<<EInt(1), EInt(2), EInt(3)>>), Var(N_ys), EList(<<>>)>>
-SameMaps == <<EMap(<<EPair(S(<<97>>), EInt(1)), EPair(S(<<98>>), EInt(2))>>), EMap(<<EPair(S(<<98>>), EInt(2)), EPair(S(<<97>>), EInt(1))>>),
+SameMaps == <<EMap(<<EPair(EInt(9), EInt(1)), EPair(EInt(10), EInt(2)), EPair(ENum(Fin(11, 1, 0)), EInt(3))>>),
+              EMap(<<EPair(ENum(Fin(11, 1, 0)), EInt(3)), EPair(EInt(10), EInt(2)), EPair(EInt(9), EInt(1))>>),
+              EMap(<<EPair(S(<<97>>), EInt(1)), EPair(S(<<98>>), EInt(2))>>), EMap(<<EPair(S(<<98>>), EInt(2)), EPair(S(<<97>>), EInt(1))>>),
               EMap(<<EPair(S(<<97>>), EInt(1)), EPair(S(<<98>>), EInt(3))>>), Var(N_m),
               EMap(<<EPair(S(<<97>>), EInt(2)), EPair(S(<<97>>), EInt(1)), EPair(S(<<98>>), EInt(2))>>)>>
 Obj3(a, b, c, perm) == LET fs == <<EFld(N_a, a), EFld(N_b, b), EFld(N_c, c)>> IN EObj([i \in 1..3 |-> fs[perm[i]]])
@@ -414,7 +443,7 @@ DbgNumT == <<Var(N_n), Var(N_eacute), EMem(Var(N_ob), N_a), ESub(Var(N_xs), EInt
              EMem(EMem(EObj(<<EFld(N_a, Var(N_ob))>>), N_a), N_a), Mul(Var(N_n), EInt(1000))>>
 DbgStrT == <<Var(N_s), Var(N_u), EMem(Var(N_ob), N_b), ESub(Var(N_ss), EInt(0)), Add(Var(N_u), Var(N_u)),
              EMem(EMem(EMem(EObj(<<EFld(N_b, EObj(<<EFld(N_a, Var(N_oba))>>))>>), N_b), N_a), N_b)>>
-DbgStyles(size) == IF size >= 2 THEN <<0, 2, 4, 8, 6, 10>> ELSE <<0, 4, 10>>
+DbgStyles(size) == IF size >= 2 THEN <<0, 2, 4, 8, 6, 10, 1, 5, 9, 3>> ELSE <<0, 4, 10, 1, 5, 9>>
 DbgProgs2(size) ==
   LET base == Prod3(DbgNumT, DbgNumT, DbgNumT, LAMBDA a, b, c : Gt(Add(a, b), c))
                 \o Prod3(DbgStrT, DbgStrT, DbgNumT, LAMBDA a, b, c : Gt(ECall(N_len, <<Add(a, b)>>), c))
@@ -513,6 +542,11 @@ OptProgs ==
          ECall(N_union, <<EList(<<Var(N_op)>>), EList(<<Var(N_oq)>>)>>), EMap(<<EPair(S(<<107>>), Var(N_op)), EPair(S(<<106>>), Var(N_oq))>>),
          Add(EMem(Var(N_oq), N_a), EInt(1)), Add(EMem(Var(N_op), N_b), EInt(1)), Add(EMem(Var(N_op), N_a), EInt(1)),
          ECall(N_get, <<EMem(Var(N_op), N_a), EInt(5)>>), ECall(N_get, <<EMem(Var(N_oq), N_b), EInt(5)>>)>>
+    \o Prod2(Opts, Opts, LAMBDA o, g : ECall(N_eqeq, <<EList(<<o>>), EList(<<g>>)>>))
+    \o Prod2(Opts, Opts, LAMBDA o, g : ECall(N_ne, <<EList(<<o, g>>), EList(<<g, o>>)>>))
+    \o Prod2(Opts, Opts, LAMBDA o, g : ECall(N_eqeq, <<EMap(<<EPair(S(<<107>>), o)>>), EMap(<<EPair(S(<<107>>), g)>>)>>))
+    \o <<ECall(N_eqeq, <<Var(N_lo), EList(<<Var(N_mx), Var(N_mj)>>)>>), ECall(N_eqeq, <<EList(<<Var(N_mj), Var(N_mx)>>), Var(N_lo)>>),
+         ECall(N_eqeq, <<Var(N_oo), Var(N_oo)>>)>>
     \* optionals nested in host data: absent payloads, present payloads
     \o <<ECall(N_get, <<ESub(Var(N_lo), EInt(0)), EInt(9)>>), ECall(N_get, <<ESub(Var(N_lo), EInt(1)), EInt(9)>>),
          ECall(N_get, <<EMem(Var(N_oo), N_a), EInt(9)>>), Add(ECall(N_get, <<EMem(Var(N_oo), N_a), EInt(9)>>), EInt(1)),
